@@ -47,6 +47,16 @@ Theorem C06_push_frame : forall idx t d, t <> "" ->
 Proof. intros idx t d Ht. destruct (index_set_spec idx t d Ht) as (H1 & H2 & _). now split. Qed.
 Print Assumptions C06_push_frame.
 
+(* ... and the lookup the client performs (exact ref.name first, then the full-image-name fallback) finds it: in ANY
+   index, also one written by another tool with entries such as "registry.example/app:v1", a tag that was just
+   pushed resolves to the manifest that was pushed *)
+Theorem C06_push_then_get : forall idx t d, t <> "" -> index_get_tag (index_set idx t d) t = Some d.
+Proof. exact push_then_get. Qed.
+Print Assumptions C06_push_then_get.
+Theorem C06_exact_name_first : forall idx t d, t <> "" -> resolve idx t = Some d -> index_get_tag idx t = Some d.
+Proof. exact get_tag_exact_first. Qed.
+Print Assumptions C06_exact_name_first.
+
 (* tags accepted by the reference grammar (no ':') are plain *)
 Theorem C06_plain_tags : forall t, t <> "" -> no_colon t = true -> plain t.
 Proof. exact plain_no_colon. Qed.
